@@ -9,7 +9,10 @@ META = {
     "level": "P/partial. Proved for every reachable state of the sequential mirror model: every signature in the committing, voting "
              "and next-round view is a genuine signature by the validator at that index of the view's set for exactly the kind/height/"
              "round/hash it is filed under; a message with no admissible signature leaves views and all stores unchanged and is never "
-             "reported accepted/verified. Partial: round-store and gossip authenticity are checked by the monitor on every run (the "
+             "reported accepted/verified. With the LOCAL validator's own actions (Properties/C05Act.v): authenticity over every "
+             "history of messages, crashes, restarts, entrances and the state machine's own votes/proposals with any signature "
+             "bytes (no hypothesis: AddSignature verifies); the chain invariant and the commit certificates under the hypothesis "
+             "that the state machine's own proposed header is well formed (necessary: refuted without it). Partial: round-store and gossip authenticity are checked by the monitor on every run (the "
              "store part for the voting/committing heights), concurrency of Handle* callers is outside the model.",
     "note": "Trusted: Coq kernel; ideal signatures; the hand model is only as good as the correspondence run (histories with real "
             "ed25519 signatures against the real mirror on every run); translator for FindView/enums. No axioms.",
@@ -19,5 +22,11 @@ META = {
 
 def main(argv):
     c = vcheck.Check("C05", argv)
-    mirrorlib.mirror_check(c, "C05", ["c05", "noop"], "C05 authenticity")
+    mirrorlib.mirror_check(c, ["C05", "C05Act"], ["c05", "noop"], "C05 authenticity")
+    # the local validator's own votes and proposals (kernel.go handleStateMachineAction, Properties/C05Act.v): the harness
+    # acts as a state machine with a key (a validator, a key outside the set, none) and hands the real mirror timely, late,
+    # duplicate and wrongly signed votes; model and implementation are compared step by step and the c05 monitor judges
+    # the views and the round store the real mirror ends up with
+    mirrorlib.mirror_check(c, "C05", ["c05"], "C05 authenticity with the local validator's own votes", quick=(15, 45),
+                           thorough=(200, 50), extra=["-consumers"], prove=False)
     c.finish()
